@@ -163,6 +163,14 @@ func cmdCheck(args []string) {
 		os.Exit(1)
 	}
 	names := p.functionsFor(*prop)
+	// scratch directories of runs that were killed: remove when clearly stale
+	if old, _ := filepath.Glob(filepath.Join(os.TempDir(), "rtv-smt-*")); len(old) > 0 {
+		for _, d := range old {
+			if fi, err := os.Stat(d); err == nil && time.Since(fi.ModTime()) > 3*time.Hour {
+				os.RemoveAll(d)
+			}
+		}
+	}
 	dir, _ := os.MkdirTemp("", "rtv-smt-")
 	defer os.RemoveAll(dir)
 	var frs []*FuncResult
@@ -360,6 +368,7 @@ func cmdCheck(args []string) {
 	os.WriteFile(evPath, append(b, '\n'), 0644)
 	fmt.Printf("%s: %d obligations, %d discharged, %d known findings, %d violations, %.1fs\n", *prop, total, discharged, len(knownHits), violations, time.Since(t0).Seconds())
 	if violations > 0 {
+		os.RemoveAll(dir) // os.Exit skips the deferred clean-up
 		os.Exit(1)
 	}
 }
